@@ -147,8 +147,9 @@ def readcodescilab_complex(numtype, shape, endianness,
                          endianness=endianness,
                          filepath=filepath, varname=varname)
     dimstr = ",:" * ndim
-    ct += f'{varname} = complex(squeeze({varname}(1{dimstr})),squeeze' \
-          f'({varname}(2{dimstr})));\n'
+    ct += f'{varname} = complex({varname}(1{dimstr}),{varname}(2{dimstr}));\n'
+    if ndim > 1:  # remove first axis, but keep other axes of length 1
+        ct += f'{varname} = matrix({varname}, {list(shape)[::-1]});\n'
     return ct
 
 
